@@ -6,6 +6,10 @@ def rapid(sub, quick, thorough, shards=8, **kw):
     return d
 
 PROPS = {
+    "C01": {"jobs": [
+        rapid("C01a", 800, 4000, shrinktime="15s", race_shards=1),
+        {"sub": "C01f", "kind": "fuzz", "run": "FuzzC01Datagram", "tiers": ["thorough"], "quick": 0, "thorough": 90},
+    ]},
     "C02": {"jobs": [
         rapid("C02a", 4000, 20000, shards=6, race_shards=1),
         rapid("C02b", 2500, 10000, shards=4),
@@ -40,6 +44,10 @@ PROPS = {
     "C07": {"jobs": [
         rapid("C07a", 2000, 8000, shrinktime="15s", race_shards=1),
     ]},
+    "C14": {"level": "fault_enumeration", "jobs": [
+        {"sub": "C14a", "kind": "test", "run": "TestC14Grid"},
+        rapid("C14a", 600, 3000, shrinktime="15s", race_shards=1),
+    ]},
     "C16": {"jobs": [
         rapid("C16a", 1500, 6000, shrinktime="15s", race_shards=1),
     ]},
@@ -60,6 +68,12 @@ PROPS = {
         rapid("C13a", 1500, 6000, shrinktime="15s"),
         rapid("C13b", 1500, 8000, shrinktime="15s", race_shards=1),
         rapid("C13c", 12, 40, shards=1),
+    ]},
+    "C19": {"jobs": [
+        rapid("C19a", 800, 4000, shrinktime="15s"),
+    ]},
+    "C20": {"jobs": [
+        rapid("C20a", 150, 800, shrinktime="15s", shards=8),
     ]},
     "C15": {"jobs": [
         rapid("C15a", 6000, 30000),
